@@ -35,7 +35,7 @@ HookOf(h) == CASE h \in {"none", "nil", "num", "str", "tbl", "err", "rterr"} -> 
                [] h = "defer"   -> [action |-> "defer"]
                [] h = "allow"   -> [action |-> "allow"]
                [] h = "deny"    -> [action |-> "deny", code |-> 550, text |-> "Mail denied by policy"]
-               [] h = "denyc"   -> [action |-> "deny", code |-> 553, text |-> "custom text"]
+               [] h = "denyc"   -> [action |-> "deny", code |-> 553, text |-> "custom text: 100% full; 5%d %s left"]
                [] h = "gofirst" -> [action |-> "deny", code |-> 521, text |-> "go first"]
                [] h = "golast"  -> [action |-> "deny", code |-> 522, text |-> "go last"]
 
@@ -102,7 +102,7 @@ TourView == <<prev, IF hist = <<>> THEN <<>> ELSE hist[Len(hist)], maxRcpt>>
 (* 2-switch tour: every pair of consecutive edges once (finds state the      *)
 (* implementation keeps across a command that the contract does not)         *)
 TourView2 == <<pprev, IF Len(hist) < 2 THEN <<>> ELSE hist[Len(hist) - 1], IF hist = <<>> THEN <<>> ELSE hist[Len(hist)], maxRcpt>>
-TxSuffix == <<[c |-> "rcpt", k |-> "b", hook |-> "none"], [c |-> "data", arg |-> FALSE], [c |-> "body", k |-> "ok"]>>
+TxSuffix == <<[c |-> "rcpt", k |-> "b", hook |-> "none"], [c |-> "data", arg |-> FALSE], [c |-> "body", k |-> "nohdr"]>>
 MailCmd  == [c |-> "mail", k |-> "ok", hook |-> "none"]
 Suffix ==
     CASE st = "GREET"    -> <<MailCmd, [c |-> "helo", verb |-> "HELO", arg |-> TRUE], MailCmd>> \o TxSuffix
